@@ -101,19 +101,21 @@ def generate(ctx):
     else:
         h1a = hists(ctx.tlc_must("Trie", G_CFG % ("1, 2, 3, 4", "1, 4", 4, 0, "content"), name="G1_content", timeout=1500))
     add(h1a, "plain", 16)
-    # G1a': the other half of the key table (0x1f, two 32-byte keys differing in the last nibble, the empty key), values 31 and 32 bytes
-    g1c = ctx.tlc_must("Trie", G_CFG % ("5, 6, 7, 8", "2, 3", 3 if quick else 4, 0, "content"), name="G1_content2", timeout=1500)
+    # G1a': the other half of the key table (0x1f, two 32-byte keys differing in the last nibble, the empty key), values of 31 and 60 bytes sharing a 31-byte prefix
+    g1c = ctx.tlc_must("Trie", G_CFG % ("5, 6, 7, 8", "2, 5", 3 if quick else 4, 0, "content"), name="G1_content2", timeout=1500)
     h1c = hists(g1c)
-    add(h1c, "both" if not quick else "plain", 8)
+    add(h1c, "plain", 8)
+    if not quick:
+        add(h1c, "secure", 8, limit=6000)
     if not quick:
         add(h1a, "secure", 16, limit=6000)
         g1d = ctx.tlc_must("Trie", G_CFG % ("1, 2, 3", "1, 4", 5, 0, "content"), name="G1_content_deep", timeout=1500)
-        add(hists(g1d), "plain", 64)
+        add(hists(g1d), "plain", 64, limit=15000)
     # G1b: node-database alphabet
     g1b = ctx.tlc_must("Trie", G_CFG % ("2, 3", "3", 5 if quick else 6, 2, "db"), name="G1_db", timeout=1500)
     h1b = hists(g1b)
-    add(h1b, "plain", 1 << 30, limit=5000 if quick else 60000)
-    add(h1b, "secure", 1 << 30, limit=1500 if quick else 20000)
+    add(h1b, "plain", 1 << 30, limit=5000 if quick else 20000)
+    add(h1b, "secure", 1 << 30, limit=1500 if quick else 8000)
     n1 = len(behs)
 
     # G2gc: simulation over the garbage-collection alphabet (commit + reference as core/blockchain.go does with every block,
@@ -123,8 +125,8 @@ def generate(ctx):
                          simulate={"num": 150 if quick else 1500}, depth=(14 if quick else 20) + 3)
         sim = hists(g)
         rnd.shuffle(sim)
-        add(sim[:(400 if quick else 4000)], "plain", 1 << 30)
-        add(sim[:(100 if quick else 1000)], "secure", 1 << 30)
+        add(sim[:(400 if quick else 2500)], "plain", 1 << 30)
+        add(sim[:(100 if quick else 600)], "secure", 1 << 30)
 
     # G2: simulation over the full alphabet; several key/value subsets per seed so that root operations are not drowned
     depth = 24 if quick else 40
@@ -135,7 +137,7 @@ def generate(ctx):
                           name="G2_sim%d" % r, timeout=1500, simulate={"num": 60 if quick else 300}, depth=depth + 1)
         sim = hists(g2)
         rnd.shuffle(sim)
-        add(sim[:(150 if quick else 1500)], "both", 2)
+        add(sim[:(150 if quick else 700)], "both", 2)
     ctx.note("behaviours: %d vectors/witnesses, %d bounded-exhaustive, %d simulated" % (nw, n1 - nw, len(behs) - n1))
     return behs
 
@@ -202,6 +204,7 @@ def run(ctx):
         "tampered proofs: the verifier's node table is rebuilt by hashing the blobs (interpretation note 'Tampered proof'); "
         "every proof byte is xor-ed with 1 (quick) or 2 (thorough) masks and every node substituted by every other node of the trie",
         "SecureTrie.Prove and VerifyProof are given the hashed key, as their callers do",
+        "per-step roots are recorded as their first 80 bits (published vectors and DeriveSha carry all 256)",
     ]
     behs = generate(ctx)
     for b in [b for b in behs if b.get("kind") == "ops"][:2] + behs[-1:]:
